@@ -509,7 +509,7 @@ fn main() {
         let mut def = CheckDef::new(
             "C20",
             "exploration",
-            "configuration enumeration on the freshly built binary: the COMPLETE option matrix {no mode, --human, --json, --cyborg P, --dump} x --brief x --pretty x --features {stable-basic, stable-all, unstable-all} x --output-file x --log-file x symbols {none, positional, --symbols-path} (720 configurations, --no-interactive alternating) on 2 inputs (quick) / all inputs (thorough), plus every input (corpus dumps, generated dumps, missing path, empty file, directory, garbage with a valid magic) under 8 spanning configurations, plus the clap-level conflicts, plus every mode with an unwritable primary / cyborg output (/dev/full: must fail with a diagnostic, never exit 0), plus every valid mode x brief x pretty x interactive or not x output file or not with --symbols-url pointing at a loopback server that answers 404 at once or only after 300 ms, plus both spellings of a symbol directory (--symbols-path and positional) in one command line. Oracle: exit status, primary output (stdout or --output-file) == in-process library output for the same options, --cyborg file == JSON, stdout empty with --output-file, rejected combinations / unreadable inputs -> exit 1 + diagnostic + no output, never 101/134/signal; raw dump output contains the library printers in order and does not depend on unrelated options. distinct_nontrivial = distinct (input, mode, brief, pretty, features, symbols, exit status, output hash).",
+            "configuration enumeration on the freshly built binary: the COMPLETE option matrix {no mode, --human, --json, --cyborg P, --dump} x --brief x --pretty x --features {stable-basic, stable-all, unstable-all} x --output-file x --log-file x symbols {none, positional, --symbols-path} (720 configurations, --no-interactive alternating) on 2 inputs (quick) / all inputs (thorough), plus every input (corpus dumps, generated dumps, missing path, empty file, directory, garbage with a valid magic) under 8 spanning configurations, plus the clap-level conflicts, plus every mode with an unwritable primary / cyborg output (/dev/full: must fail with a diagnostic, never exit 0; a path that cannot be created: exit 1, diagnostic, nothing on standard output), plus every valid mode x brief x pretty x interactive or not x output file or not with --symbols-url pointing at a loopback server that answers 404 at once or only after 300 ms, plus both spellings of a symbol directory (--symbols-path and positional) in one command line. Oracle: exit status, primary output (stdout or --output-file) == in-process library output for the same options, --cyborg file == JSON, stdout empty with --output-file, rejected combinations / unreadable inputs -> exit 1 + diagnostic + no output, never 101/134/signal; raw dump output contains the library printers in order and does not depend on unrelated options. distinct_nontrivial = distinct (input, mode, brief, pretty, features, symbols, exit status, output hash).",
         );
         def.assumptions = vec![
             "expected reports are computed in-process by the same library code (release profile with overflow checks); C13 establishes that they are reproducible".into(),
@@ -616,6 +616,14 @@ fn main() {
             (vec!["--json"], "stdout"),
             (vec!["--human"], "stdout"),
             (vec!["--dump"], "stdout"),
+            // outputs that cannot even be created: missing parent directory / the path is a directory
+            (vec![], "cyborg-uncreatable"),
+            (vec!["--brief"], "cyborg-uncreatable"),
+            (vec![], "cyborg-is-directory"),
+            (vec!["--human"], "output-file-uncreatable"),
+            (vec!["--json"], "output-file-uncreatable"),
+            (vec!["--dump"], "output-file-uncreatable"),
+            (vec!["--json"], "output-file-is-directory"),
         ];
         let full_cases = Arc::new(full_cases);
         let (s4, f1, f2) = (sh.clone(), full_cases.clone(), full_cases.clone());
@@ -638,6 +646,22 @@ fn main() {
                         args.push("--cyborg".into());
                         args.push("/dev/full".into());
                     }
+                    "cyborg-uncreatable" => {
+                        args.push("--cyborg".into());
+                        args.push("/nonexistent-directory-of-verif/sub/report.json".into());
+                    }
+                    "cyborg-is-directory" => {
+                        args.push("--cyborg".into());
+                        args.push("/tmp".into());
+                    }
+                    "output-file-uncreatable" => {
+                        args.push("--output-file".into());
+                        args.push("/nonexistent-directory-of-verif/sub/report.txt".into());
+                    }
+                    "output-file-is-directory" => {
+                        args.push("--output-file".into());
+                        args.push("/tmp".into());
+                    }
                     _ => {
                         cmd.stdout(std::fs::OpenOptions::new().write(true).open("/dev/full").expect("open /dev/full"));
                     }
@@ -657,6 +681,11 @@ fn main() {
                     l.violation("c20:success-reported-although-output-was-not-written", format!("the {target} is a full device, every write fails, yet the tool exits 0"), d);
                 } else if out.stderr.is_empty() {
                     l.violation("c20:no-diagnostic", format!("unwritable {target}: exit {code} without a diagnostic"), d);
+                } else if target.ends_with("uncreatable") || target.ends_with("is-directory") {
+                    // the failure is known before any report exists: nothing may reach the primary output
+                    if !out.stdout.is_empty() {
+                        l.violation("c20:output-on-failure", format!("{target}: the tool failed (exit {code}) yet wrote {} bytes to standard output", out.stdout.len()), d);
+                    }
                 }
             },
             move |i| json!({"mode": f2[(i % f2.len() as u64) as usize].0, "unwritable": f2[(i % f2.len() as u64) as usize].1}),
